@@ -5,6 +5,8 @@
 # Date   : March 18, 2019
 """Provide the level 5 SystemVerilog translator implementation."""
 
+from collections import deque
+
 from pymtl3.passes.backends.generic.behavioral.BehavioralTranslatorL5 import (
     BehavioralTranslatorL5,
 )
@@ -60,7 +62,11 @@ class BehavioralRTLIRToVVisitorL5( BehavioralRTLIRToVVisitorL4 ):
   def visit_Index( s, node ):
     if isinstance( node.value.Type, rt.Array ) and \
        isinstance( node.value.Type.get_sub_type(), rt.Component ):
+      # The index is an expression of its own: the indices that are pending
+      # for the enclosing signal must not end up inside it
+      pending, s._unpacked_q = s._unpacked_q, deque()
       idx = s.visit( node.idx )
+      s._unpacked_q = pending
       s._unpacked_q.appendleft(idx)
       value = s.visit( node.value )
       return value
